@@ -416,21 +416,22 @@ Der ==
 \* w1*x + w2*y + w3*z = FormSum((x, w1), (y, w2), (z, w3)): three different nodes with the same
 \* argument slots, pairwise different weights
 WSum ==
-  \E i, j, k \in DOMAIN store, ws \in SumSel :
-    LET x == store[i]  y == store[j]  z == store[k]  tr == WeightTriples[ws] IN
-    /\ ~(SumMode /\ HasSum(store))
-    /\ i # j /\ i # k /\ j # k
-    /\ x.kind = "bf" /\ y.kind = "bf" /\ z.kind = "bf"
-    /\ x.args = y.args /\ y.args = z.args
-    /\ Push([Node("wsum", i, j, "bf", x.args, x.may \cup y.may \cup z.may,
-                  DegMax(DegMax(x.deg, y.deg), z.deg), x.dif /\ y.dif /\ z.dif,
-                  x.hasact \/ y.hasact \/ z.hasact, x.idl /\ y.idl /\ z.idl,
-                  x.isform /\ y.isform /\ z.isform)
-             EXCEPT !.c = k, !.w = tr[1], !.w2 = tr[2], !.w3 = tr[3],
-                    !.hasform = x.hasform \/ y.hasform \/ z.hasform])
+  /\ SumSel # {}
+  /\ ~(SumMode /\ HasSum(store))
+  /\ \E i \in DOMAIN store : store[i].kind = "bf" /\
+       \E j \in DOMAIN store \ {i} : store[j].kind = "bf" /\ store[j].args = store[i].args /\
+         \E k \in DOMAIN store \ {i, j} : store[k].kind = "bf" /\ store[k].args = store[i].args /\
+           \E ws \in SumSel :
+             LET x == store[i]  y == store[j]  z == store[k]  tr == WeightTriples[ws] IN
+             Push([Node("wsum", i, j, "bf", x.args, x.may \cup y.may \cup z.may,
+                        DegMax(DegMax(x.deg, y.deg), z.deg), x.dif /\ y.dif /\ z.dif,
+                        x.hasact \/ y.hasact \/ z.hasact, x.idl /\ y.idl /\ z.idl,
+                        x.isform /\ y.isform /\ z.isform)
+                   EXCEPT !.c = k, !.w = tr[1], !.w2 = tr[2], !.w3 = tr[3],
+                          !.hasform = x.hasform \/ y.hasform \/ z.hasform])
 \* ufl.replace(A, {q: r}) for a coefficient / cofunction q that occurs in A
 Repl ==
-  \E i \in DOMAIN store, p \in ReplSel :
+  \E p \in ReplSel, i \in DOMAIN store :
     LET x == store[i]  q == ReplPairs[p][1]  r == ReplPairs[p][2] IN
     /\ x.kind = "bf" /\ q \in x.may
     /\ Push([Node("repl", i, 0, "bf", x.args, (x.may \ {q}) \cup {r},
